@@ -217,6 +217,16 @@ Theorem C09_reduce_tuple_single_refuted :                               (* D45 *
   exists bs r, front RSingle bs None (DimTuple [0; 1]%Z) KdNoDefault = Ok r /\ ro_bs r <> torch_reduce bs [0; 1] false.
 Proof. exact tuple_single_refuted. Qed.
 Print Assumptions C09_reduce_tuple_single_refuted.
+Definition C09_reduce_prod_keepdim_full_statement : Prop := forall (bs : shape) z d,
+  norm_dim (List.length bs) z = Some d ->
+  exists r, front RProd bs None (DimInt z) KdTrue = Ok r /\ ro_bs r = torch_reduce bs [d] true.
+(* every in-range dim but the literal 0 (a negative spelling of dim 0 included): the reduced dim comes back as size 1 *)
+Theorem C09_reduce_prod_keepdim_partial : forall (bs : shape) z d,
+  norm_dim (List.length bs) z = Some d -> z <> 0%Z ->
+  exists r, front RProd bs None (DimInt z) KdTrue = Ok r /\ ro_bs r = torch_reduce bs [d] true /\
+            ro_call r = LcDim (PInt (Z.of_nat d)) KdFalse /\ ro_post r = PostUnsqueeze d.
+Proof. exact prod_keepdim_nonzero. Qed.
+Print Assumptions C09_reduce_prod_keepdim_partial.
 Theorem C09_reduce_prod_keepdim_refuted :                               (* D46 *)
   exists bs, front RProd bs None (DimInt 0) KdTrue = Raised /\ norm_dim (List.length bs) 0 = Some 0.
 Proof. exact prod_keepdim_dim0_refuted. Qed.
